@@ -105,17 +105,42 @@ class C15(Plugin):
         t2 = trees.sort_attrs(trees.coalesce(trees.dom_forest(d2)))
         tr = trees.sort_attrs(trees.coalesce(trees.dom_forest(ref)))
 
-        def strip_meta(f):
+        def mask(f):
+            """encoding declarations (a charset attribute, or content next to http-equiv=content-type) have their value
+            masked; every other element -- ordinary meta elements included -- is compared as it is"""
             out = []
             for n in f:
                 if n[0] == "E":
+                    attrs = n[3]
                     if n[2] == "meta":
-                        continue
-                    out.append(["E", n[1], n[2], n[3], strip_meta(n[4])])
+                        d = {(tuple(k) if isinstance(k, list) else k): v for k, v in attrs}
+                        names = [k[1] for k in d if k[0] is None]
+                        if "charset" in names:
+                            attrs = [[k, "*" if (k[0] is None and k[1] == "charset") else v] for k, v in attrs]
+                        elif any(k == (None, "http-equiv") and v.lower() == "content-type" for k, v in d.items()) and "content" in names:
+                            attrs = [[k, "*" if (k[0] is None and k[1] == "content") else v] for k, v in attrs]
+                    out.append(["E", n[1], n[2], attrs, mask(n[4])])
                 else:
                     out.append(n)
             return out
-        return [enc2, strip_meta(t2) == strip_meta(tr), b[:120].decode("latin-1")]
+
+        def uninject(f):
+            """without the declaration the filter adds when it found none: the first child of head, charset only"""
+            out = []
+            for n in f:
+                if n[0] == "E":
+                    kids = n[4]
+                    if n[2] == "head" and kids and kids[0][0] == "E" and kids[0][2] == "meta" and \
+                            [k[1] for k, _ in kids[0][3]] == ["charset"] and not kids[0][4]:
+                        out.append(["E", n[1], n[2], n[3], kids[1:]])
+                        continue
+                    out.append(["E", n[1], n[2], n[3], uninject(kids)])
+                else:
+                    out.append(n)
+            return out
+        m2, mr = mask(t2), mask(tr)
+        same = m2 == mr or uninject(m2) == mr
+        return [enc2, same, b[:120].decode("latin-1")]
 
     def oracle(self, case, out):
         if case["k"] != 1 or out[0] == "encode-error":
